@@ -13,6 +13,7 @@ from . import coredrv, tlc
 from . import world as W
 
 WORKER_VERBS = {"retr", "stor", "appe", "list", "mlsd"}
+SPEC_KF = {"abor-before-150"}  # deviation actions FtpCore knows (constant KF)
 
 
 class _Cap(logging.Handler):
@@ -111,6 +112,27 @@ def validate(check, cfg, tree, schedules, *, label, procs=14, max_diag=3, sig_ex
     traces = [r["trace"] for r in results]
     res, tot = tlc.validate_traces(cfg, traces, procs=procs)
     check.add_tlc(tot)
+    # second pass: traces the strict specification rejects are re-validated with the deviation
+    # actions of *listed* known findings enabled; only what is accepted there is a known finding
+    rejected = [i for i in range(len(traces)) if res[i][0] < res[i][1]]
+    diag_cfg = {}
+    kf_entries = [k for k in check.known_all if k.get("signature", {}).get("kf") in SPEC_KF]
+    if rejected and kf_entries:
+        for k in kf_entries:
+            todo = [i for i in rejected if res[i][0] < res[i][1]]
+            if not todo:
+                break
+            cfg2 = dict(cfg, kf=[k["signature"]["kf"]])
+            res2, tot2 = tlc.validate_traces(cfg2, [traces[i] for i in todo], procs=procs)
+            check.add_tlc(tot2)
+            for j, i in enumerate(todo):
+                if res2[j][0] >= res2[j][1]:
+                    res[i] = res2[j]
+                    check.known_hits.setdefault(k["slug"], k)
+                    check.notes["known_finding_traces"] = check.notes.get("known_finding_traces", 0) + 1
+                elif res2[j][0] > res[i][0]:
+                    res[i] = res2[j]
+                    diag_cfg[i] = cfg2
     out = []
     ndiag = 0
     sigs_seen = set()
@@ -132,7 +154,7 @@ def validate(check, cfg, tree, schedules, *, label, procs=14, max_diag=3, sig_ex
                 if new:
                     ndiag += 1
                     try:
-                        detail["last_state"] = tlc.diagnose(cfg, r["trace"], m)
+                        detail["last_state"] = tlc.diagnose(diag_cfg.get(i, cfg), r["trace"], m)
                         print("--- rejected trace (%s) at event %d/%d: %s" % (label, m, n, json.dumps(first_unmatched(r["trace"], m))[:400]))
                         print("    schedule: %s" % json.dumps(r["done"])[:1500])
                         if r["logged"]:
